@@ -80,9 +80,11 @@ def matrix(draw, kind, nmin=3, nmax=7):
     if not directed:
         A[1, 0] = True
     if kind in ("bu", "bd"):
-        pick = draw(st.integers(0, 5))
+        pick = draw(st.integers(0, 6))
         if pick == 0:
             W = A.astype(np.int64)
+        elif pick >= 5:
+            W = A.copy()                      # boolean adjacency matrix (e.g. the result of W > 0)
         elif pick <= 2:
             # a weighted matrix handed to a routine documented for binary input is still the caller's array
             W = draw(gen.weights_for(A, "dyadic", directed))
@@ -104,11 +106,20 @@ def matrix(draw, kind, nmin=3, nmax=7):
                 W[i, j] = W[j, i] = np.inf
     else:
         W = draw(gen.weights_for(A, "dyadic", directed))
-    diag = draw(st.sampled_from(["nonzero", "nonzero", "zero"]))
-    if diag == "nonzero" and kind != "wu01full":
+    diag = draw(st.sampled_from(["nonzero", "nonzero", "zero", "cancelling"]))
+    if W.dtype == bool:
+        if diag in ("nonzero", "cancelling"):     # partly filled diagonal
+            for i in range(0, n, 2):
+                W[i, i] = True
+    elif diag == "nonzero" and kind != "wu01full":
         d = draw(st.lists(st.integers(1, 4), min_size=n, max_size=n))
         for i, v in enumerate(d):
             W[i, i] = (1 if W.dtype.kind == "i" or kind in ("bu", "bd") else v / 4.0)
+    elif diag == "cancelling" and kind == "sign":
+        # self-connections of both signs that sum to zero (a zero trace is not an empty diagonal)
+        for i in range(0, n - 1, 2):
+            v = draw(st.integers(1, 4)) / 4.0
+            W[i, i], W[i + 1, i + 1] = v, -v
     layout = draw(st.sampled_from(["C", "F", "sliced"]))
     if layout == "F":
         W = np.asfortranarray(W)
@@ -338,6 +349,11 @@ def cases(draw, name):
     r = draw(call_args(name))
     args, kwargs = r
     kwargs = dict(kwargs)
+    if args and isinstance(args[0], np.ndarray) and args[0].ndim == 2 and args[0].shape[0] == args[0].shape[1] \
+            and name not in c05.registered() and draw(st.integers(0, 11)) == 0:
+        # malformed input (one extra column): many routines then raise part-way through -- "returns OR RAISES"
+        a0 = args[0]
+        args = [np.hstack([a0, a0[:, :1]])] + list(args[1:])
     for flag, default in _bool_flags(name):
         if flag not in kwargs and draw(st.booleans()):
             kwargs[flag] = not default           # exercise the non-default branch of every boolean option
